@@ -19,6 +19,7 @@ func extractAll(p *pkg, f *facts) {
 	tlsFacts(p, f)
 	poolFacts(p, f)
 	drainFacts(p, f)
+	connFacts(p, f)
 }
 
 func (p *pkg) constNat(f *facts, leanName, goName string) {
@@ -779,4 +780,46 @@ func drainFacts(p *pkg, f *facts) {
 	} else {
 		f.boolean("connLoopLimiterPerRequest", false, false, "func handleConnectionLoop not found")
 	}
+}
+
+func connFacts(p *pkg, f *facts) {
+	if fn, ok := p.funcs["Server.registerConnection"]; ok {
+		src := exprString(p.fset, fn.Body)
+		// one Lock with deferred Unlock covering the limit test, the map insert and the increment
+		f.boolean("connRegisterAtomic", strings.Contains(src, "defer s.connMutex.Unlock()") && strings.Contains(src, "s.connCount >= tuning.MaxConnections") &&
+			strings.Contains(src, "s.connCount++") && strings.Count(src, "s.connMutex.Lock()") == 1, true, "")
+	} else {
+		f.boolean("connRegisterAtomic", false, false, "func registerConnection not found")
+	}
+	if fn, ok := p.funcs["Server.unregisterConnection"]; ok {
+		inside := false
+		ast.Inspect(fn.Body, func(n ast.Node) bool {
+			ce, ok := n.(*ast.CallExpr)
+			if !ok || !strings.HasSuffix(exprString(p.fset, ce.Fun), "unregisterOnce.Do") || len(ce.Args) != 1 {
+				return true
+			}
+			body := exprString(p.fset, ce.Args[0])
+			if strings.Contains(body, "s.connCount--") && strings.Contains(body, "delete(s.activeConns, conn)") {
+				inside = true
+			}
+			return true
+		})
+		src := exprString(p.fset, fn.Body)
+		f.boolean("connDecrementInsideOnce", inside && strings.Count(src, "s.connCount--") == 1, true, "")
+	} else {
+		f.boolean("connDecrementInsideOnce", false, false, "func unregisterConnection not found")
+	}
+	okc := true
+	for _, name := range []string{"AbsfsNFS.Close", "AbsfsNFS.Unexport"} {
+		fn, ok := p.funcs[name]
+		if !ok {
+			okc = false
+			continue
+		}
+		src := exprString(p.fset, fn.Body)
+		if !strings.Contains(src, "fileMap.ReleaseAll()") || !strings.Contains(src, "attrCache.Clear()") || !strings.Contains(src, "dirCache.Clear()") || !strings.Contains(src, "exportServer.Stop()") {
+			okc = false
+		}
+	}
+	f.boolean("closeReleasesAndClears", okc, true, "")
 }
